@@ -244,7 +244,9 @@ class DiagnosticsRenderer:
             span = to_span(diag.span)
             level = self.level_str(diag.level)
             all_spans = [span] + [
-                to_span(child.span) for child in diag.children if child.span
+                to_span(child.span)
+                for child in diag.children
+                if child.span is not None
             ]
             max_lineno = max(s.end.line for s in all_spans)
             self.buffer.append(f"{level}: {diag.rendered_title} (at {span.start})")
@@ -257,7 +259,7 @@ class DiagnosticsRenderer:
             )
             # First render all sub-diagnostics that come with a span
             for sub_diag in diag.children:
-                if sub_diag.span:
+                if sub_diag.span is not None:
                     self.render_snippet(
                         to_span(sub_diag.span),
                         sub_diag.rendered_span_label,
@@ -334,7 +336,11 @@ class DiagnosticsRenderer:
         if leading_whitespace > self.MAX_LEADING_WHITESPACE:
             remove = leading_whitespace - self.OPTIMAL_LEADING_WHITESPACE
             all_lines = [line[remove:] for line in all_lines]
-            span = span.shift_left(remove)
+            # The span may begin or end inside the whitespace we are cutting off
+            span = Span(
+                span.start.shift_left(min(remove, span.start.column)),
+                span.end.shift_left(min(remove, span.end.column)),
+            )
 
         # Render prefix lines
         for i, line in enumerate(all_lines[:prefix_lines]):
@@ -515,8 +521,8 @@ def wrap(
     """
     [first, *rest] = [
         line
-        for paragraph in text.splitlines()
-        for line in (textwrap.wrap(paragraph, width, **kwargs) if paragraph else [""])
+        for paragraph in text.splitlines() or [""]
+        for line in (textwrap.wrap(paragraph, width, **kwargs) or [""])
     ]
     # Manually take care of `initial_indent` and `subsequent_indent` since we don't
     # want them to count towards `width`
